@@ -100,6 +100,13 @@ func (w *World) verifyFunction(c *Contract) (res *FuncResult) {
 	vc.obls = append(vc.obls, &Obligation{Name: fn.String() + "#cover.requires", Kind: "cover", Fn: fn.String(), Props: c.Raw.Props,
 		Prefix: len(vc.script), Cond: "true", Goal: "false", Expect: "sat"})
 	if c.Raw.Trusted {
+		// the body of an assumed contract is not verified, but its control-flow clauses
+		// (`loop N dispatches ...`) are decided on the CFG
+		if len(fn.Blocks) > 0 {
+			_, back := forwardOrder(fn)
+			fr.loops = findLoops(fn, back)
+			vc.dispatchObligations(fr, c)
+		}
 		return res
 	}
 	results, out := vc.execBody(fr, st)
@@ -735,7 +742,11 @@ func (vc *VC) dispatchObligations(fr *Frame, c *Contract) {
 				li = l
 			}
 		}
-		o := &Obligation{Name: fmt.Sprintf("%s#dispatch.%d", vc.fnName(), cl.Raw.Loop), Kind: "dispatch", Fn: vc.fnName(), Props: vc.clauseProps(c, cl), Expect: "unsat", Solver: "ground", Status: "unsat", Goal: "true", Cond: "true"}
+		oname := fmt.Sprintf("%s#dispatch.%d", vc.fnName(), cl.Raw.Loop)
+		if cl.Raw.Label != "" {
+			oname += "." + cl.Raw.Label
+		}
+		o := &Obligation{Name: oname, Kind: "dispatch", Fn: vc.fnName(), Props: vc.clauseProps(c, cl), Expect: "unsat", Solver: "ground", Status: "unsat", Goal: "true", Cond: "true"}
 		if li == nil {
 			o.Status, o.Output = "sat", fmt.Sprintf("loop %d not found", cl.Raw.Loop)
 			vc.obls = append(vc.obls, o)
@@ -748,6 +759,15 @@ func (vc *VC) dispatchObligations(fr *Frame, c *Contract) {
 					if f := call.Common().StaticCallee(); f != nil && names[f.Name()] {
 						return true
 					}
+				}
+				if _, ok := instr.(*ssa.MapUpdate); ok && names["mapupdate"] {
+					return true
+				}
+			}
+			// `loop:M`: entering loop M (its header) counts
+			for _, l := range fr.loops {
+				if l.header == b && names[fmt.Sprintf("loop:%d", l.ordinal)] {
+					return true
 				}
 			}
 			return false
